@@ -935,6 +935,12 @@ impl<'a> Walker<'a> {
                     self.viol("C16", "move-counter-step", item, path, format!("after {} the move counter went {} -> {}; position {}", desc_str(d), snap0.full, s1.full, pos.to_fen()));
                 }
             }
+            if on(F12) {
+                // the state reached by the move (also when it is a leaf of the walk)
+                for (cls, det) in invariants(snap1.as_ref().unwrap()) {
+                    self.viol("C12", cls, item, path, format!("after {} from {}: {}", desc_str(d), pos.to_fen(), det));
+                }
+            }
             if on(F03) {
                 let s1 = snap1.as_ref().unwrap();
                 if s1.turn != snap0.turn {
